@@ -323,6 +323,11 @@ fn run_vault(plan: &Plan, lib: &dyn Lib, rec: &mut Rec) {
     for (i, cd, key) in &stored {
         let s = &sps[*i];
         let Some(d) = c.sim.nodes[v1].disk.read(key) else { continue };
+        if matches!(cd, Codec::Json | Codec::JsonReader) && x.chance(1, 3) {
+            // a first attempt to read the record fails part-way (the source panics, the vault catches it) and is repeated
+            let _ = rec.call(lib, g, Op::DecodeInterrupted, &[&[s.ty as u8], &d, &u64b(d.len() as u64 / 2), &[1u8]]);
+            rec.fault("caller-source-panics-mid-decoding");
+        }
         let back = c.at(v1, || recode(rec, lib, g, s.ty, *cd, s.codec, &d));
         let id = format!("{} {}", s.ty.name(), cd.name());
         let ok = back.first() == Some(s.bytes.as_slice());
@@ -472,6 +477,16 @@ fn run_byz_encoder(plan: &Plan, lib: &dyn Lib, rec: &mut Rec) {
         let is_share = share_types.contains(&s.ty);
         for cd in [Codec::Bytes, Codec::Bare, Codec::Json, Codec::TreeBin, Codec::TreeHr] {
             let Some(enc) = to_codec(rec, lib, g, s, cd).first().map(|b| b.to_vec()) else { continue };
+            if cd == Codec::Json {
+                // the source behind the decoder fails part-way — returns an error, or panics and the caller catches the
+                // unwind — and the thread goes on decoding (everything below): nothing comes out of the torn read, and no
+                // later decision changes
+                for (k, how) in [(enc.len() / 2, 1u8), (enc.len().saturating_sub(1), 1), (enc.len() / 3, 0)] {
+                    let o = rec.call(lib, g, Op::DecodeInterrupted, &[&[s.ty as u8], &enc, &u64b(k as u64), &[how]]);
+                    rec.fault(if how == 1 { "caller-source-panics-mid-decoding" } else { "caller-source-fails-mid-decoding" });
+                    rec.expect("C16", "truncated-input-rejected", o.flag() == Some(false), || format!("interrupted-read {} json | a value came out of a source that failed after {} of {} bytes: {:?}", s.ty.name(), k, enc.len(), o.kind()));
+                }
+            }
             if is_tree(cd) && !is_share {
                 // the third format: a short write is a sequence with one element fewer (the document stays well-formed);
                 // every point- or scalar-sized run of the document loses its last element
